@@ -41,6 +41,14 @@ REGISTRY['C10'] = {
     'design_ref': 'DESIGN.md section 5 / C10',
     'not_covered': ['interleaving with RRDP file writes, session reset histories', 'publisher_rsync_base string construction'],
 }
+REGISTRY['C13'] = {
+    'v': ['c13_roles', 'c13_h_cas'],
+    'k': [],
+    'level_text': 'Evaluation core: Role::is_allowed is exactly "per-CA grant beats blanket grant, non-CA requests use the general grant"; AuthInfo::check_permission grants exactly when the authenticated role allows, and passes an authentication error on. Route table: every handler reaches a state-touching facade method only after proceed_permitted with the permission the operation requires for the addressed CA (capability preconditions on the facade; oracle table written from the statement).',
+    'level_note': 'PermissionSet::has uninterpreted in the V units (its bit algebra is decided by the K group); facade = KrillManager methods as assumed externals; listing handlers filtering inside closures not covered.',
+    'design_ref': 'DESIGN.md section 5 / C13',
+    'not_covered': ['listing handlers that filter inside iterator closures', 'HTTP status mapping'],
+}
 REGISTRY['C15'] = {
     'v': ['c15_taproxy'],
     'k': [],
